@@ -132,6 +132,7 @@ class FSMWorld:
             _installed['sleep'] = state.time.sleep
             _installed['RollbackImporter'] = state.RollbackImporter
             _installed['plow'] = farm.plow
+            _installed['_reload'] = state.FSM._reload
         world = [self]
         _installed['world'] = world
 
